@@ -196,10 +196,21 @@ func VrfC09Alerts() {
 	}
 	// a second, healthy peer that must never be reported
 	st.Add(&api.Metric{Name: "ping", Peer: vrfPeers[1], Valid: true, Expire: now + 3600*vrfSecond, Value: "1"})
+	// optionally the same peer also has a metric under a second name, with its own fate
+	second := vrf_choice("second_metric_name", 2) == 1
+	var latest2 *api.Metric
+	expired2 := false
+	if second {
+		latest2 = &api.Metric{Name: "freespace", Peer: vrfPeers[0], Valid: true, Expire: vrfExpiry(now), Value: "1"}
+		st.Add(latest2)
+		expired2 = now > latest2.Expire
+	}
+	vrf_note_bool("second_name_expired", expired2)
 	expired := now > latest.Expire
 	vrf_note_bool("latest_expired", expired)
 	vrf_note_bool("check_all", useAll)
 	total := 0
+	total2 := 0
 	otherAlerts := 0
 	for c := 0; c < checks; c++ {
 		var err error
@@ -214,7 +225,9 @@ func VrfC09Alerts() {
 			select {
 			case a := <-mc.alertCh:
 				got = true
-				if a.Peer == vrfPeers[0] {
+				if a.Peer == vrfPeers[0] && a.Name == "freespace" {
+					total2++
+				} else if a.Peer == vrfPeers[0] {
 					total++
 				} else {
 					otherAlerts++
@@ -233,11 +246,21 @@ func VrfC09Alerts() {
 	vrf_assert(otherAlerts == 0, "C09.alert.healthy-never")
 	vrf_assert(vrf_implies(!expired, total == 0), "C09.alert.never-unexpired")
 	vrf_assert(vrf_implies(expired, total == 1), "C09.alert.exactly-once")
+	if second {
+		// each metric name has its own count
+		vrf_assert(vrf_implies(!expired2, total2 == 0), "C09.alert.never-unexpired")
+		vrf_assert(vrf_implies(expired2, total2 == 1), "C09.alert.exactly-once-per-name")
+	}
 	if checks >= 2 {
 		// after the alert the stale metric is forgotten
 		gone := st.PeerLatest("ping", vrfPeers[0]) == nil
 		vrf_assert(vrf_implies(expired, gone), "C09.alert.forgotten")
 		vrf_assert(vrf_implies(!expired, !gone), "C09.alert.fresh-kept")
+		if second {
+			gone2 := st.PeerLatest("freespace", vrfPeers[0]) == nil
+			vrf_assert(vrf_implies(expired2, gone2), "C09.alert.forgotten")
+			vrf_assert(vrf_implies(!expired2, !gone2), "C09.alert.fresh-kept")
+		}
 	}
 	vrf_reach("C09.alert.end")
 }
